@@ -1089,8 +1089,18 @@ fn hx(s: &str) -> String {
     format!("x{}", hex(s.as_bytes()))
 }
 
+/// Function-pointer leaves (`impl Filter for fn(Event<&dyn ErasedProps>) -> bool`, `impl Emitter for fn(…)`);
+/// a plain `fn` cannot capture its leaf number, so these are tied to fixture 20.
+fn fp_f0(evt: Event<&dyn ErasedProps>) -> bool {
+    record(Ob::F(0, render_event(&evt)));
+    hk("a").holds(&evt)
+}
+fn fp_e1(evt: Event<&dyn ErasedProps>) {
+    record(Ob::E(1, render_event(&evt)));
+}
+
 /// Number of statically typed fixtures.
-const N_STATIC: usize = 20;
+const N_STATIC: usize = 24;
 
 /// The description (F, E fields of the case line) of fixture `n`, or — with `Some(rest)` — its execution.
 /// The types below are fully static: no adapter node, no narrowing; the generic impls are instantiated at the
@@ -1302,6 +1312,50 @@ fn static_fixture(n: usize, run: Option<&Rest>) -> Option<(String, String, Optio
                 let inner = Some(le(0, FlushB::Ge(6)).and_to(nested));
                 AssertInternal(Box::new(leak(Arc::new(Box::new(inner)))) as Box<DynE>)
             }
+        ),
+        20 => fixture!(
+            format!("(and (fnleaf (haskey {a})) (leaf (haskey {amb_k})))"),
+            "(and (leaf (ge 2)) fnleaf)".into(),
+            (fp_f0 as fn(Event<&dyn ErasedProps>) -> bool).and_when(lf(1, hk("amb"))),
+            le(0, FlushB::Ge(2)).and_to(fp_e1 as fn(Event<&dyn ErasedProps>))
+        ),
+        21 => fixture!(
+            format!("(or (internal (leaf (mdl {m}))) (dynbox (and (leaf (haskey {a})) (none))))"),
+            format!("(wrapm (prepend {amb_k} (i 7)) (dynbox (rt (leaf (keyis {amb_k} (i 7))) (amb) none (and fnleaf (leaf (ge 1))))))"),
+            AssertInternal(lf(0, md("m"))).or_when(Box::new(lf(1, hk("a")).and_when(None::<LeafF>)) as Box<DynF>),
+            (Box::new(Runtime::build(
+                fn_leaf_e(0).and_to(le(1, FlushB::Ge(1))),
+                lf(2, ki("amb", 7)),
+                TestCtxt(PropList(vec![])),
+                TestClock(None),
+                Empty
+            )) as Box<DynE>)
+                .wrap_emitter(wrapping::from_fn(map_fn(MapF::Prepend("amb".into(), V::I(7)))))
+        ),
+        22 => fixture!(
+            format!("(and (or (leaf (haskey {a})) (some (or (leaf (haskey {b})) (some (leaf (haskey {amb_k})))))) (shared (dynarc (or (leaf (extent none)) (leaf (extent point))))))"),
+            "(and (and (wrapf (leaf (extent range)) (leaf true)) (wrapf (leaf (extent point)) (leaf true))) (wrapf (leaf (extent none)) (leaf true)))".into(),
+            lf(0, hk("a"))
+                .or_when(Some(lf(1, hk("b")).or_when(Some(lf(2, hk("amb"))))))
+                .and_when(Arc::new(Arc::new(lf(3, Pred::ExtentKind(0)).or_when(lf(4, Pred::ExtentKind(1)))) as Arc<DynF>)),
+            le(0, FlushB::Always(true))
+                .wrap_emitter(wrapping::from_filter(lf(5, Pred::ExtentKind(2))))
+                .and_to(le(1, FlushB::Always(true)).wrap_emitter(wrapping::from_filter(lf(6, Pred::ExtentKind(1)))))
+                .and_to(le(2, FlushB::Always(true)).wrap_emitter(wrapping::from_filter(lf(7, Pred::ExtentKind(0)))))
+        ),
+        23 => fixture!(
+            "(leaf (propsge 2))".into(),
+            format!("(wrapm (addprop {k} (i 1)) (wrapm (addprop {k} (i 2)) (and (wrapm (prepend {k} (i 3)) (leaf (ge 2))) (wrapf (leaf (keyis {k} (i 1))) (wrapm (settpl {z}) fnleaf)))))", k = hx("k"), z = hx("Z")),
+            lf(0, Pred::PropsGe(2)),
+            le(0, FlushB::Ge(2))
+                .wrap_emitter(wrapping::from_fn(map_fn(MapF::Prepend("k".into(), V::I(3)))))
+                .and_to(
+                    fn_leaf_e(1)
+                        .wrap_emitter(wrapping::from_fn(map_fn(MapF::SetTpl("Z".into()))))
+                        .wrap_emitter(wrapping::from_filter(lf(1, ki("k", 1))))
+                )
+                .wrap_emitter(wrapping::from_fn(map_fn(MapF::AddProp("k".into(), V::I(2)))))
+                .wrap_emitter(wrapping::from_fn(map_fn(MapF::AddProp("k".into(), V::I(1)))))
         ),
         _ => None,
     }
